@@ -266,6 +266,15 @@ def run(ctx):
             aware.append({"parser": "relative", "own": False, "w": [w.year, w.month, w.day, w.hour, w.minute, w.second, 0], "offA": offA,
                           "offT": offTo if has_to else offA, "offTz": offA, "offTo": offTo, "hasTo": has_to, "rata": rata, "s": rng.choice(["now", "0 seconds ago"]),
                           "kw": {"languages": ["en"]}, "settings": st, "api": "parse", "probe": False, "zones": ["aware base " + str(A[0]), B[0] if has_to else None]})
+        # half of them after a call whose reference is the SAME INSTANT written in another zone, all other settings equal
+        # (aware datetimes compare and hash by instant: whatever is remembered under such a value must not serve this call)
+        for c in aware:
+            if rng.random() < 0.5:
+                new = c["offA"] - 18000 if c["offA"] >= 0 else c["offA"] + 25200
+                d_ = datetime.datetime(*c["w"][:6]) + datetime.timedelta(seconds=new - c["offA"])
+                st_ = dict(c["settings"])
+                st_["RELATIVE_BASE"] = {"dt": [d_.year, d_.month, d_.day, d_.hour, d_.minute, d_.second, 0], "tz": new}
+                c["pre"] = [{"s": rng.choice(["now", "2 hours ago", "6 months ago"]), "kw": {"languages": ["en"]}, "settings": st_}]
         cases += aware
         results += core.run_cases(ctx, "harness.lib", "call_parse", aware)
         # with TIMEZONE given explicitly the zone of the PROCESS must not matter: a sample of the cases above (all those
@@ -288,7 +297,7 @@ def run(ctx):
     for t in tuples["REJECT"]:
         _, tid, kind, verdict, exp = t[:5]
         c, r = cases[tid], results[tid]
-        d = {"call": "dateparser.parse(%r, %s, settings=%r)" % (c["s"], ", ".join("%s=%r" % kv for kv in c["kw"].items()), c["settings"]), "parser": c["parser"], "TZ_env": c.get("tzenv"),
+        d = {"call": "dateparser.parse(%r, %s, settings=%r)" % (c["s"], ", ".join("%s=%r" % kv for kv in c["kw"].items()), c["settings"]), "parser": c["parser"], "TZ_env": c.get("tzenv"), "earlier_calls_of_the_process": c.get("pre") or [],
              "settings_given_as": {"instance": "dateparser.conf.settings.replace(**settings)", "cleared": "a dict passed to DateDataParser(...) and emptied by the caller before get_date_data"}.get(c.get("via"), "a dict")}
         if kind == "abs":
             ctx.note_drift("Timezone", {"case": d, "model": exp, "observed": [r["out"], r["off"]]})
